@@ -92,6 +92,13 @@ func (q PathQuery) Find() ([]Point, bool) {
 			found = &pt
 			break
 		}
+		// blocks without nodes (range-loop heads, select-done) have no point on which Target would be
+		// evaluated: offer their virtual entry point so that "reaches block B" queries are not vacuous
+		if len(b.Nodes) == 0 && q.Target != nil && q.Target(Point{b, 0}) {
+			pt := Point{b, 0}
+			found = &pt
+			break
+		}
 		if scan(b, 0, false) {
 			for si, s := range b.Succs {
 				if q.AvoidEdge != nil && q.AvoidEdge(b, si) {
